@@ -302,10 +302,29 @@ def inf_selfclose(p, res):
         for n in f.body_nodes():
             if isinstance(n, ast.Call) and isinstance(n.func, ast.Name) and n.func.id == 'self_close':
                 users.append((f, n))
+    from .path import _const_prefix
     for f, n in users:
         st = p.enclosing_stmt(f, n)
-        if f.short == 'markup.format.html.element' and src_of(st) == "out.push_string('%s>' % self_close(config))":
-            res.ok('self_close(config) used for the marker before ">"')
+        pm = p.parents(f)
+        # the marker is a piece of a string that ends in ">" and is pushed to the output: '%s>' % self_close(config)
+        emitted = False
+        if isinstance(st, ast.Expr) and isinstance(st.value, ast.Call) and isinstance(st.value.func, ast.Attribute) and st.value.func.attr in ('push', 'push_string') \
+                and len(st.value.args) == 1 and f.module.name.startswith('emmet.markup.format'):
+            ps = _const_prefix(p, f, st.value.args[0])
+            emitted = ps is not None and ps[1].endswith('>') and any(x is n for x in ast.walk(st.value.args[0]))
+        # positively wrong: the marker decides something (it is tested or compared)
+        tested = False
+        x = n
+        while x is not None and x is not st:
+            par = pm.get(x)
+            if isinstance(par, (ast.Compare, ast.BoolOp)) or (isinstance(par, (ast.If, ast.IfExp, ast.While)) and par.test is x) \
+                    or (isinstance(par, ast.UnaryOp) and isinstance(par.op, ast.Not)):
+                tested = True
+            x = par
+        if emitted and not tested:
+            res.ok('%s: self_close(config) is pushed as the marker before ">"' % f.short)
+        elif tested:
+            res.bad(F('INF-SELFCLOSE', f, n, src_of(st), 'self_close() used outside the self-closing tag edge: the marker is tested, so the style decides more than the characters before ">"'))
         else:
-            res.bad(F('INF-SELFCLOSE', f, n, src_of(st), 'self_close() used outside the self-closing tag edge'))
+            res.undecided('%s: %s' % (f.short, src_of(st).split('\n')[0][:120]), 'the self-close marker is used in a shape that is not the emission of "<marker>>"')
     res.require_floor(3)
